@@ -112,7 +112,10 @@ func (e *Enc) stringOfValue(v ssa.Value) (string, bool) {
 func modelHasPrefix(e *Enc, c *ssa.CallCommon, args []Val, pos token.Pos) ([]Val, bool) {
 	lit, ok := e.stringOfValue(c.Args[1])
 	if !ok {
-		return nil, false
+		// a prefix that is not a literal: only the length relation is modelled
+		r := e.fresh("hasprefix", SBool)
+		e.assert(Implies(r, Ge(StrLen(e.coerce(args[0])), StrLen(e.coerce(args[1])))))
+		return []Val{{T: r, Typ: types.Typ[types.Bool]}}, true
 	}
 	s := e.coerce(args[0])
 	conds := []Term{Ge(StrLen(s), IntLit(int64(len(lit))))}
